@@ -60,7 +60,7 @@ fn case_strategy(_t: Tier) -> BoxedStrategy<Case> {
         1 => any::<u16>().prop_map(|op| CircuitMut::DropOp { op }),
     ];
     (
-        proptest::collection::vec(op, 2..14),
+        prog::with_pi_burst(proptest::collection::vec(op, 2..14).boxed(), 250),
         // labels: short, around the 32-byte mark, long; bytes incl. 0x00
         prop_oneof![
             3 => proptest::collection::vec(any::<u8>(), 0..10),
@@ -342,6 +342,12 @@ fn check(ctx: &Ctx, c: &Case) -> PResult {
             let expect = *pv == vv;
             c03::compare(ctx, &format!("{pv:?} proof under {vv:?}"), &orig.verifier, &orig.rv, pb, &pi, vv, Some(expect))?;
         }
+    }
+    match pi.len() {
+        0..=15 => {}
+        16..=31 => ctx.label("16-31 public inputs"),
+        32..=63 => ctx.label("32-63 public inputs"),
+        _ => ctx.label("64+ public inputs"),
     }
     ctx.sample("subject", || json!({"ops": c.ops.iter().map(|o| o.name()).collect::<Vec<_>>(), "public_inputs": pi.len()}));
     let _ = Proof::from_slice;
